@@ -17,6 +17,30 @@ ENGINE_ASSUME = ["sync.RWMutex/Mutex/Once, atomic.Bool/Value modelled as sequent
                  "fmt/log/strings formatting executed natively on concrete arguments"]
 
 PROPS = {
+    "C05": {
+        "level": "model_checking",
+        "harnesses": [
+            H("H_C05_compareData", "three buffers of 0..3 symbolic 64-bit words", reach=["compared", "equal"], quick=Q, thorough=T),
+            H("H_C05_accept", "pre-state = recording of any failing run of a symbolic 3-opcode program (2 fatal sites, data-dependent site, non-fatal site, panic, skip) on any buffer of <=3 (quick) / <=4 (thorough) words; candidate = any buffer of <=3/<=4 words; one call of the real accept", reach=["accepted", "rejected"], quick=Q, thorough=T),
+        ],
+        "assumptions": ENGINE_ASSUME + ["dataStr (cache key of rejected candidates) is structural on symbolic words: a spurious cache miss re-runs the candidate with the same result"],
+    },
+    "C09": {
+        "level": "model_checking",
+        "harnesses": [
+            H("H_C09_findBug", "real findBug, N in -1..2 (quick) / -1..3 (thorough), every pass/skip/fail outcome sequence (solver-chosen per invocation), deadline far away", reach=["failed", "no-failure", "enough", "budget"], quick=Q, thorough=T),
+            H("H_C09_verdict", "real checkTB with -rapid.checks in 1..2, -rapid.nofailfile, shrinktime 0, every outcome sequence", reach=["falsified", "passed", "only-generated"], quick=Q, thorough=T),
+        ],
+        "assumptions": ENGINE_ASSUME + ["clock: time.Now non-decreasing ticks, time.Until(deadline) large (the early-exit branch is not taken)", "filepath.Glob finds no fail files (C06/C17 cover them)"],
+    },
+    "C13": {
+        "level": "model_checking",
+        "harnesses": [
+            H("H_C13_fuzz", "input length 0..17 (quick) / 0..25 (thorough) symbolic bytes; property = symbolic program of 2/3 opcodes over {return, draw bool, draw byte, Errorf, Fatalf, panic, Skip, data-dependent Fatalf}", reach=["pass", "skip", "fail"], quick=Q, thorough=T),
+            H("H_C13_suffix", "x: 0..11 symbolic bytes, y: 1..9 appended symbolic bytes, 2-opcode symbolic program", reach=["decided"], quick=Q, thorough=T),
+        ],
+        "assumptions": ENGINE_ASSUME + ["tb.SkipNow/Fatalf end the goroutine like runtime.Goexit"],
+    },
     "C02": {
         "level": "model_checking",
         "harnesses": [H("H_C02_checkOnce", TSTATE_BOUNDS, reach=TSTATE_REACH, quick=Q, thorough=T)],
